@@ -335,7 +335,9 @@ def build_jobs(prop, tier):
               ("c13-headers-fastq", suite("fastq", {"list": fq_in}, [3, 64], {"fixed": [NEXT, SET0]}, chunks=[[0]], slots=1, extra=0, flags=fl), 2)]
         # (owned copies as the two owned-record iterators hand them out)
         ow = [("owned-iterators-" + f2, suite(f2, rnd(q(tier, 500, 5000), maxrec=4, maxfield=5, damage=10), [3, 8, 64], {"fixed": [ITER, INTO]}, chunks=[[0]], slots=1, extra=1), 2) for f2 in ("fasta", "fastq")]
-        J.append(ReaderJob("c13", plain_suites("fasta", tier, fl)[1:] + plain_suites("fastq", tier, fl)[1:] + hs + ow))
+        # (records taken from a record set that is refilled again and again: ids of varying length, small capacities)
+        rs = [("reused-sets-" + f2, suite(f2, rnd(q(tier, 1200, 12000), maxrec=8, maxfield=4, damage=0), [7, 9, 12, 16, 24], {"fixed": [SET0, EXACT(2)]}, chunks=[[0]], slots=1, extra=1, flags=fl), 4) for f2 in ("fasta", "fastq")]
+        J.append(ReaderJob("c13", plain_suites("fasta", tier, fl)[1:] + plain_suites("fastq", tier, fl)[1:] + hs + ow + rs))
     elif prop == "C14":
         J.append(ReaderJob("c14", fault_suites("fasta", tier) + fault_suites("fastq", tier) + pair_suites("fasta", tier, "C14") + pair_suites("fastq", tier, "C14")))
     elif prop == "C17":
